@@ -57,7 +57,8 @@ def ConfigurationFileToJson(filename):
 
     '''Reads dosini format configuration file and returns it as json string'''
 
-    cfg = configparser.ConfigParser()
+    # VV: values are literal text (e.g. key-output descriptions), '%' has no special meaning
+    cfg = configparser.ConfigParser(interpolation=None)
     cfg.read([filename])
     return ConfigurationToJson(cfg)
 
